@@ -226,6 +226,37 @@ func (w *e2eWorld) runE2E(mon *lib.Monitor, e entry, c e2eCase) error {
 		if rerr == nil {
 			got = append(got, reply)
 		}
+		// Observation only (outside the property, which speaks of the *stream* header and trailer): is
+		// metadata the child sets on a unary call relayed to the caller? The generated unary forwarder
+		// calls child.Method(ctx, request) without grpc.Header/grpc.Trailer call options.
+		if c.Script == "ok" && target != 0 {
+			mon.Count("unary child header relayed=" + fmt.Sprint(mdHas(gotHeader, "h", "9")))
+			mon.Count("unary child trailer relayed=" + fmt.Sprint(mdHas(gotTrailer, "t", "4")))
+			if e.Wrap != nil {
+				var wh, wt metadata.MD
+				conn, _ := e.Wrap(w.routers[e.id()]).UnwrapService()
+				reply2, _ := newMessage(md.Output().FullName())
+				w.mu.Lock()
+				saved := p.calls
+				p.calls = nil
+				w.mu.Unlock()
+				if err := conn.Invoke(ctx, full, req, reply2, grpc.Header(&wh), grpc.Trailer(&wt)); err == nil {
+					mon.Count("unary via wrapper+router: child header relayed=" + fmt.Sprint(mdHas(wh, "h", "9")))
+					mon.Count("unary via wrapper+router: child trailer relayed=" + fmt.Sprint(mdHas(wt, "t", "4")))
+					if !proto.Equal(reply2, reply) {
+						viol("wrapper-response-altered", "the response through wrapper+router differs from the one through the router", fmt.Sprint(reply), fmt.Sprint(reply2))
+					}
+				} else {
+					viol("wrapper-call-failed", "the same call through the generated wrapper around the router failed", "nil", err.Error())
+				}
+				w.mu.Lock()
+				if len(p.calls) != 1 {
+					viol("wrapper-not-forwarded-once", "a call through wrapper+router must reach the child exactly once", "1", fmt.Sprint(len(p.calls)))
+				}
+				p.calls = saved
+				w.mu.Unlock()
+			}
+		}
 	} else {
 		st, err := w.callerCC.NewStream(ctx, &grpc.StreamDesc{ServerStreams: true}, full)
 		if err != nil {
